@@ -12,6 +12,8 @@ import (
 // Val is a symbolic value: an SMT term, or an executor-side address, tuple or
 // closure.
 type Val struct {
+	From  string // "<Type>.<field>" when the value was loaded from that field of a heap object
+	FromOwner string // the object (ref term) it was loaded from
 	Ghost bool // a total ghost map (SMT array), indexed directly
 	T    string
 	S    string
